@@ -62,7 +62,7 @@ r('<CodeBuilder as ExpressionVisitor>::visit_binary_expression', 'macro:panic', 
 r('<CodeBuilder as ExpressionVisitor>::visit_binary_logical_expression', 'macro:assert_eq', 'walk_expr calls it only after check_condition_type() accepted both operands as bool', {'kind': 'callers_dominated_by', 'callee': 'check_condition_type', 'count': 2})
 r('<CodeBuilder as ExpressionVisitor>::visit_binary_logical_expression', 'unwrap', 'alloca() fails only for void; the type here is the constant BOOL')
 r('<CodeBuilder as ExpressionVisitor>::visit_switch_statement', 'call', 'walk_stmt calls it only when every case condition and every body was built (lengths equal), and default position p <= cases.len()', {'kind': 'switch_guard'})
-r('<CodeBuilder as ExpressionVisitor>::visit_switch_statement', 'macro:assert_eq', 'NOT safe for a switch without any clause: case_body_start_refs unconditionally starts with exit_ref.next(), so for `switch (x) {}` it has 1 element while case_conditions has 0 (for >= 1 clause the caller guard makes both cases.len())', {'kind': 'switch_guard'}, 'finding')
+r('<CodeBuilder as ExpressionVisitor>::visit_switch_statement', 'macro:assert_eq', 'case_conditions.len() == cases (caller guard); the start-label vector holds one entry per body (nothing for a switch without clauses; was finding F12 before c4014f5), bodies.len() == cases + (default ? 1 : 0) (caller guard), and the default one is removed: both sides equal cases', {'kind': 'switch_guard', 'starts_per_body': True})
 r('CodeBuilder::emit_binary_expression', 'macro:panic', 'only reached from visit_binary_expression with a non-Logical op (see there)')
 # tir core
 r('CodeBody::finalize_completion_values', 'index', 'indices are BasicBlockRef values of this body or loop counters below basic_blocks.len(); reachable and incoming_map are sized basic_blocks.len()')
